@@ -9,6 +9,7 @@ import (
 	"context"
 	"fmt"
 	"strconv"
+	"strings"
 	"testing"
 	"testing/synctest"
 
@@ -43,13 +44,16 @@ func typeName(t message.Type) string {
 	return fmt.Sprintf("t%d", int(t))
 }
 
-func buildReq(udp bool, con bool, v int64) []byte {
+func buildReq(udp bool, con bool, v int64, extra ...message.OptionID) []byte {
 	m := pool.NewMessage(context.Background())
 	m.SetCode(codes.POST)
 	m.SetToken(reqToken)
 	_ = m.SetPath("/x")
 	if v >= 0 {
 		m.SetOptionUint32(message.NoResponse, uint32(v))
+	}
+	for _, id := range extra { // further options of the request, possibly numbered above No-Response
+		m.SetOptionBytes(id, []byte{0x5a, byte(id)})
 	}
 	if udp {
 		m.SetMessageID(reqMID)
@@ -70,7 +74,7 @@ func buildReq(udp bool, con bool, v int64) []byte {
 	return append([]byte(nil), b...)
 }
 
-func srvUDP(t *testing.T, con bool, v int64, code codes.Code) (line string) {
+func srvUDP(t *testing.T, con bool, v int64, code codes.Code, extra ...message.OptionID) (line string) {
 	synctest.Test(t, func(t *testing.T) {
 		set := "nocall"
 		cc, s := mem.NewUDPConn(mem.UDPOpts{Mutate: func(cfg *udpclient.Config) {
@@ -82,7 +86,7 @@ func srvUDP(t *testing.T, con bool, v int64, code codes.Code) (line string) {
 				}
 			}
 		}})
-		if err := cc.Process(nil, buildReq(true, con, v)); err != nil {
+		if err := cc.Process(nil, buildReq(true, con, v, extra...)); err != nil {
 			set = "process-error"
 		}
 		synctest.Wait()
@@ -108,7 +112,7 @@ func srvUDP(t *testing.T, con bool, v int64, code codes.Code) (line string) {
 	return line
 }
 
-func srvTCP(t *testing.T, v int64, code codes.Code) (line string) {
+func srvTCP(t *testing.T, v int64, code codes.Code, extra ...message.OptionID) (line string) {
 	synctest.Test(t, func(t *testing.T) {
 		set := "nocall"
 		cc, peer, err := mem.NewTCPConn(mem.TCPOpts{Mutate: func(cfg *tcpclient.Config) {
@@ -126,7 +130,7 @@ func srvTCP(t *testing.T, v int64, code codes.Code) (line string) {
 		}
 		synctest.Wait()
 		peer.TakeFrames() // the connection's own CSM
-		if err := peer.Write(buildReq(false, false, v)); err != nil {
+		if err := peer.Write(buildReq(false, false, v, extra...)); err != nil {
 			set = "write-error"
 		}
 		synctest.Wait()
@@ -199,16 +203,40 @@ func TestC20(t *testing.T) {
 			} else {
 				fmt.Fprintf(w, "accepted %v %d\n", resp.IsModified(), resp.Code())
 			}
-		case len(f) == 5 && f[0] == "srv":
+		case len(f) == 3 && f[0] == "rwl":
+			// rwl <code> <id:hex,id:hex,…>: ResponseWriter built from a whole (sorted) request option list
+			c, _ := strconv.ParseUint(f[1], 10, 16)
+			var opts []message.Option
+			for _, e := range strings.Split(f[2], ",") {
+				kv := strings.SplitN(e, ":", 2)
+				id, _ := strconv.ParseUint(kv[0], 10, 16)
+				val, _ := lp.ParseHex(kv[1])
+				opts = append(opts, message.Option{ID: message.OptionID(id), Value: val})
+			}
+			resp := pool.NewMessage(context.Background())
+			rw := responsewriter.New(resp, nopClient{}, opts...)
+			if err := rw.SetResponse(codes.Code(c), message.TextPlain, nil); err != nil {
+				fmt.Fprintf(w, "refused %v\n", resp.IsModified())
+			} else {
+				fmt.Fprintf(w, "accepted %v %d\n", resp.IsModified(), resp.Code())
+			}
+		case (len(f) == 5 || len(f) == 6) && f[0] == "srv":
+			var extra []message.OptionID
+			if len(f) == 6 {
+				for _, e := range strings.Split(strings.TrimPrefix(f[5], "x"), ",") {
+					id, _ := strconv.ParseUint(e, 10, 16)
+					extra = append(extra, message.OptionID(id))
+				}
+			}
 			v := int64(-1)
 			if f[3] != "-" {
 				v, _ = strconv.ParseInt(f[3], 10, 64)
 			}
 			c, _ := strconv.ParseUint(f[4], 10, 16)
 			if f[1] == "udp" {
-				fmt.Fprintln(w, srvUDP(t, f[2] == "con", v, codes.Code(c)))
+				fmt.Fprintln(w, srvUDP(t, f[2] == "con", v, codes.Code(c), extra...))
 			} else {
-				fmt.Fprintln(w, srvTCP(t, v, codes.Code(c)))
+				fmt.Fprintln(w, srvTCP(t, v, codes.Code(c), extra...))
 			}
 		default:
 			fmt.Fprintln(w, "bad-op")
